@@ -281,7 +281,12 @@ def parse_format(fmt):
         if name == '':
             name = str(auto)
             auto += 1
-        out.append(('field', name, m.group(3) or ''))
+        spec = m.group(3) or ''
+        # auto-numbered fields nested in the spec continue the numbering ('{:0{}d}'.format(x, w))
+        while '{}' in spec:
+            spec = spec.replace('{}', '{%d}' % auto, 1)
+            auto += 1
+        out.append(('field', name, spec))
         pos = m.end()
     lit = fmt[pos:].replace('{{', '{').replace('}}', '}')
     if lit:
